@@ -657,7 +657,8 @@ register(Contract(
 
 register(Contract(
     key=A + "FiniteBifield.primitive_element", types={"self": FF}, returns=FE, result_field_of="self",
-    ensures=lambda a, res, w: {"is_x": res.value == 2 % a.self.size}, theory=(),
+    # x for m >= 2; GF(2) has the single non-zero element 1 (the property: a designated element of order 2^m - 1)
+    ensures=lambda a, res, w: {"is_x_or_one_in_gf2": OR(AND(a.self.size == 2, res.value == 1), AND(a.self.size != 2, res.value == 2 % a.self.size))}, theory=(),
     small=lambda cfg: [{"self": None}], small_desc="the field of this configuration",
 ))
 
